@@ -1,0 +1,55 @@
+//go:build verif
+
+package function
+
+import "sync"
+
+// Only compiled with the `verif` build tag. VerifSetSendOrder lets the verification harness choose the order in
+// which the concurrently running per-function analyses send their results to the collector in `run`.
+
+var (
+	verifMu    sync.Mutex
+	verifCond  = sync.NewCond(&verifMu)
+	verifRank  map[int]int       // index -> position in the forced order (nil: no forcing)
+	verifNext  int
+)
+
+// VerifSetSendOrder forces the results with the given function indices to be sent in exactly this order
+// (indices not listed are sent freely). Pass nil to switch forcing off. Must be set before the analysis runs and
+// must list each index at most once; every listed index must actually occur, otherwise the analysis deadlocks.
+func VerifSetSendOrder(order []int) {
+	verifMu.Lock()
+	defer verifMu.Unlock()
+	verifNext = 0
+	if order == nil {
+		verifRank = nil
+		return
+	}
+	verifRank = make(map[int]int, len(order))
+	for pos, idx := range order {
+		verifRank[idx] = pos
+	}
+	verifCond.Broadcast()
+}
+
+func verifYield(index int) {
+	verifMu.Lock()
+	defer verifMu.Unlock()
+	rank, ok := verifRank[index]
+	if !ok {
+		return
+	}
+	for verifNext != rank {
+		verifCond.Wait()
+	}
+}
+
+// verifSent releases the next sender of the forced order once this result has been received by the collector.
+func verifSent(index int) {
+	verifMu.Lock()
+	defer verifMu.Unlock()
+	if _, ok := verifRank[index]; ok {
+		verifNext++
+		verifCond.Broadcast()
+	}
+}
